@@ -790,12 +790,12 @@ Proof.
   split.
   - intros e HNE _ Hc. pose proof (in_kb_flat okmeth rules _ Hflat HNE) as He. simpl in He.
     assert (Hn: ~ In x (vars_expr e)).
-    { intro Hin. rewrite (expr_contains_its_vars e x Hin) in Hc. discriminate. }
+    { intro Hin. specialize (Hc x (or_introl eq_refl)). rewrite (expr_contains_its_vars e x Hin) in Hc. discriminate. }
     destruct (flat_frame meth okmeth ok_stateless ok_not_len fx fx') as [Fe _]. apply (Fe e He).
     intros y Hy Hfy. apply Hframe; auto. intro Hin. apply Hn. eapply Ce; eauto.
   - intros a HNA _ Hc. pose proof (in_kb_flat okmeth rules _ Hflat HNA) as Ha. simpl in Ha.
     assert (Hn: ~ In x (vars_atom a)).
-    { intro Hin. rewrite (atom_contains_its_vars a x Hin) in Hc. discriminate. }
+    { intro Hin. specialize (Hc x (or_introl eq_refl)). rewrite (atom_contains_its_vars a x Hin) in Hc. discriminate. }
     destruct (flat_frame meth okmeth ok_stateless ok_not_len fx fx') as [_ Fa]. apply (Fa a Ha).
     intros y Hy Hfy. apply Hframe; auto. intro Hin. apply Hn. eapply Ca; eauto.
 Qed.
